@@ -377,12 +377,14 @@ def part_validator(ctx) -> None:
             ctx.violation("C20:validator:accepted-forbidden-token", {"kind": "validator", "spec": spec})
 
 
-def write_climatology(scratch, rng, three_d, zero_sum=False):
+def write_climatology(scratch, rng, three_d, zero_sum=False, big=False):
     import xarray as xr
 
     year = rng.choice([2019, 2020, 2021])
     times = np.array([np.datetime64(f"{year}-{m:02d}-15") for m in range(1, 13)], dtype="datetime64[ns]")
     nlat, nlon = rng.randrange(3, 8), rng.randrange(3, 9)
+    if big:
+        nlat, nlon = rng.choice([(17, 20), (18, 19), (16, 33), (13, 21)])  # boxes of several hundred cells
     lat0, lon0 = rng.choice([-30.0, 0.0, 41.0]), rng.choice([-120.0, -3.0, 10.0, 150.0])
     lat = lat0 + np.arange(nlat) * 1.0
     lon = lon0 + np.arange(nlon) * 1.0
@@ -441,7 +443,8 @@ def part_creator(ctx) -> None:
             three_d = rng.random() < 0.4
             on_grid = False
             zero_case = it % 9 == 8  # targeted sub-check for the zero-sum mechanism
-            ds, field, lat, lon, year = write_climatology(scratch, rng, three_d, zero_sum=zero_case)
+            big = (it % 9 == 4) and not zero_case
+            ds, field, lat, lon, year = write_climatology(scratch, rng, three_d, zero_sum=zero_case, big=big)
             if zero_case:
                 # in-box cells {+1, -1} (sum exactly 0) surrounded by 5s
                 i0, j0 = 1, 1
@@ -456,6 +459,9 @@ def part_creator(ctx) -> None:
                 for _try in range(30):
                     i1, i2 = sorted(rng.sample(range(len(lat) + 1), 2))
                     j1, j2 = sorted(rng.sample(range(len(lon) + 1), 2))
+                    if big:  # (nearly) the whole grid: more than 256 cells, not a multiple of 256
+                        i1, i2, j1, j2 = rng.choice([0, 1]), len(lat), rng.choice([0, 1]), len(lon) - rng.choice([0, 1])
+                        ctx.count("c20.create_config_boxes_of_several_hundred_cells")
                     if it % 3 == 0 and _try < 20 and (i2 - i1 < 3 or j2 - j1 < 3):
                         continue  # on-grid cases need an interior
                     sub = field[i1:i2, j1:j2]
